@@ -1,6 +1,7 @@
 """C11 check configuration."""
 
 PROP = {
+    "thorough_scale": 4,
     "parts": [
         {"name": "mux", "pkg": "internal/home",
          "files": ["home/common_assembly_test.go", "home/c11_test.go", "home/c11_raw_test.go", "home/c11_shutdown_test.go"],
